@@ -23,9 +23,9 @@ namespace Vars
     for the command line and for the properties alike. -/
 def rankedTask (p : Path) (td tv : KV) : List KV := ranked p ++ [tv, td]
 
-/-- What BuildTaskCommand actually does for the command line (finding
-    `task_template_defaults_over_vars`): the template's defaults BEFORE its vars. -/
-def rankedCmdAsCoded (p : Path) (td tv : KV) : List KV := ranked p ++ [td, tv]
+/-- What BuildTaskCommand did for the command line before the repair (finding
+    `task_template_defaults_over_vars`, `legacyCfg`): the template's defaults BEFORE its vars. -/
+def rankedCmdLegacy (p : Path) (td tv : KV) : List KV := ranked p ++ [td, tv]
 
 /-- What the documented rule demands to be observed at a role. -/
 def expected (keys : List String) (r : RoleIn) : RoleObs :=
@@ -40,15 +40,6 @@ def expected (keys : List String) (r : RoleIn) : RoleObs :=
     task := r.tmpl.map fun (td, tv) =>
       (tabulate keys (firstDefined (rankedTask p td tv)), tabulate keys (firstDefined (rankedTask p td tv))) }
 
-/-- The rule with the one recorded deviation built in (command line: template
-    defaults before template vars). Used by the driver only to classify a Spec
-    failure as the known finding. -/
-def expectedAsCoded (keys : List String) (r : RoleIn) : RoleObs :=
-  { expected keys r with
-    task := r.tmpl.map fun (td, tv) =>
-      (tabulate keys (firstDefined (rankedCmdAsCoded r.path td tv)),
-       tabulate keys (firstDefined (rankedTask r.path td tv))) }
-
 /-- Spec on one role: the observation is what the rule demands. -/
 def roleOk (keys : List String) (r : RoleIn) (obs : RoleObs) : Bool := decide (obs = expected keys r)
 
@@ -58,8 +49,9 @@ def caseOk (keys : List String) : List RoleIn → List RoleObs → Bool
   | r :: rs, o :: os => roleOk keys r o && caseOk keys rs os
   | _, _ => false
 
-/-- Excluded hypothesis of `C14_model_meets_spec_partial` (known finding
-    `task_template_defaults_over_vars`): at this role the relative order of the
+/-- Hypothesis of `C14_model_meets_spec_partial` (finding `task_template_defaults_over_vars`,
+    repaired: needed only for `legacyCfg`, the code as it was; `C14_model_meets_spec_code` does
+    without it): at this role the relative order of the
     task template's defaults and vars cannot matter — for every key the workflow
     defines it, or at most one of the two template maps does, or both agree. -/
 def tmplOrderIrrelevant (keys : List String) (r : RoleIn) : Bool :=
